@@ -4,7 +4,7 @@
 From stdpp Require Import base list option numbers.
 From Incr.Model Require Import Base Live Engine Api.
 From RecordUpdate Require Import RecordUpdate.
-From Incr.Proofs Require Import Pres Handlers HandlerQueue FrameHasGrow HandlerQueueEnd FrameHasInv HandlerChain.
+From Incr.Proofs Require Import Pres OkPres Handlers HandlerQueue FrameHasGrow HandlerQueueEnd FrameHasInv HandlerChain HandlerCount Histories.
 
 (* OnUpdateHandler::run is exactly the decision table [deliver] (Handlers.v), guarded by "created in
    an earlier stabilisation" *)
@@ -131,6 +131,40 @@ Theorem C09_every_live_queued_node_is_reported :
       /\ (forall n x, n ∈ has_stack s -> nodes s !! n = Some x -> n_live x = true -> exists nu, (n, nu) ∈ run_ouh s').
 Proof. exact end_prepare_queue_spec. Qed.
 
+(* ---- the counter that decides whether a changed node is queued at all.
+   HCd (Proofs/HandlerCount.v): in every node, num_on_update_handlers = the handlers attached to the node itself
+   + the handlers of every observer linked to it (InUse or Disallowed-not-yet-unlinked), the observer lists have
+   no duplicates and agree with the observers' own states, and the subscription tokens of one observer are
+   distinct.  It holds after every operation of every history of a debug build, up to the first operation that
+   fails: observe, add_new_observers, unlink_disallowed_observers, disallow_future_use, subscribe, unsubscribe and
+   add_on_update_handler keep the books; every other engine function leaves them alone (generated frame). *)
+Theorem C09_handler_count_is_exact_in_every_history :
+  forall fuel max_height ops, while_ok (run_history fuel max_height true ops) HCd.
+Proof. exact history_handler_count. Qed.
+
+(* hence a node with a subscribed linked observer, or with a handler of its own, has a positive counter — the
+   hypothesis of C09_changed_node_with_handlers_is_queued — so its change is queued and never lost *)
+Theorem C09_subscribed_observer_keeps_the_counter_positive :
+  forall s o ob x,
+    HC s -> obss s !! o = Some ob -> linked ob -> o_handlers ob <> [] -> nodes s !! o_observing ob = Some x ->
+    (0 < n_num_handlers x)%Z.
+Proof. exact linked_subscription_counts. Qed.
+
+Theorem C09_own_handler_keeps_the_counter_positive :
+  forall s n x, HC s -> nodes s !! n = Some x -> n_handlers x <> [] -> (0 < n_num_handlers x)%Z.
+Proof. exact own_handler_counts. Qed.
+
+(* non-vacuity: after a subscription and two stabilisations the observed node's counter is 1, and two after a second
+   subscription; unsubscribing takes it back *)
+Example C09_counter_nonvacuous :
+  let h := [OpVar 1; OpObserve 0; OpSubscribe 0 (HFn 7 []); OpStabilise; OpSubscribe 0 (HFn 8 []); OpSet 0 2; OpStabilise;
+            OpUnsubscribe 0 0; OpStabilise] in
+  (fun e : res out * list event * state =>
+     (match e.1.1 with Ok _ => true | _ => false end, (fun x => n_num_handlers x) <$> nodes e.2)) <$> run_history 100 128 true h
+  = [(true, [0%Z]); (true, [0%Z]); (true, [0%Z]); (true, [1%Z]); (true, [2%Z]); (true, [2%Z]); (true, [2%Z]);
+     (true, [1%Z]); (true, [1%Z])].
+Proof. vm_compute. reflexivity. Qed.
+
 (* non-vacuity: the callbacks of a concrete history *)
 Example C09_nonvacuous :
   let h := [OpVar 1; OpObserve 0; OpSubscribe 0 (HFn 7 []); OpStabilise; OpStabilise; OpObserve 0; OpStabilise;
@@ -159,3 +193,6 @@ Print Assumptions C09_every_live_queued_node_is_reported.
 Print Assumptions C09_node_handler_table.
 Print Assumptions C09_disallowed_observer_hears_nothing.
 Print Assumptions C09_unsubscribed_handler_is_gone.
+Print Assumptions C09_handler_count_is_exact_in_every_history.
+Print Assumptions C09_subscribed_observer_keeps_the_counter_positive.
+Print Assumptions C09_own_handler_keeps_the_counter_positive.
